@@ -1005,7 +1005,9 @@ fn run_prop_inner(args: &Args, prop: &str) -> i32 {
     let out_path = arg_str(args, "out", "trace.ndjson").to_string();
     let shapes = read_ndjson(arg_str(args, "shapes", "shapes.ndjson"));
     let reps = arg_u64(args, "reps", if thorough { 3 } else if prop == "C02" { 2 } else { 1 });
-    let deadline = if thorough { 1200.0 } else { 100.0 };
+    // far above any driven call (the slowest take ~10 s unloaded in the checked profile): a loaded machine must not
+    // turn a slow call into a reported hang
+    let deadline = if thorough { 1800.0 } else { 600.0 };
     let only = args.get("only").cloned(); // replay: a single case id
     let mut pool = Pool::new(seed);
     let mut works = works_from_shapes(&shapes, seed, &driver, reps, &mut pool, deadline);
